@@ -272,13 +272,21 @@ where
     | [], cur, acc => (acc ++ [cur])
     | c :: cs, cur, acc => if c = '/' then go cs [] (acc ++ [cur]) else go cs (cur ++ [c]) acc
 
+/-- `YAMLPath(text)` of what is left after the prefix text is cut off: a text starting with the
+separator is a forward-slash path; any other text has its separator inferred as the dot, so that a
+remainder like `c/x` (the prefix ended inside a key name) is ONE key. -/
+def reparse (rem : Str) : List Str :=
+  match rem with
+  | [] => []
+  | c :: cs => if c = '/' then splitKeys (c :: cs) else [c :: cs]
+
 /-- `strip_path_prefix(path, prefix)` on plain key paths. -/
 def stripPrefix (path pre : List Str) : List Str :=
   if pre.isEmpty then path
   else
     let ps := renderKeys pre
     let s := renderKeys path
-    if ps.isPrefixOf s then splitKeys (s.drop ps.length) else path
+    if ps.isPrefixOf s then reparse (s.drop ps.length) else path
 
 def keysToAddr (ks : List Str) : Addr := ks.map (fun k => Ref.key (.str k))
 
